@@ -84,7 +84,7 @@ def run_case(case):
         hs = case['handlers'] = hs + [dict(N_HANDLER)]
     if case.get('under_run') and not any(h['name'] == 'slow' for h in hs):
         hs = case['handlers'] = hs + [copy.deepcopy(SLOW_HANDLER)]
-    w = World({'handlers': hs})
+    w = World({'handlers': hs, 'mk': case.get('mk')})
     problems = []
     subjects = []
     for spec in case['fires']:
@@ -264,6 +264,13 @@ def corpus():
     for shapes in (['GTy'], ['GTC'], ['GTW'], ['GTCT'], ['GTX'], ['GTC', 'R'], ['G2vv', 'GTC'], ['GTC', 'GX1'], ['GTW', 'GTC'], ['X', 'GTC'], ['GTC', 'RV']):
         for fl in (ALLF, {'success': True}):
             cs.append({'handlers': mk_handlers('e', shapes), 'fires': [{'name': 'e', 'flags': fl}], 'under_run': True})
+    # events whose name is not the name of their class (a class with a name attribute; an instance renamed after construction)
+    for mk in ('attr', 'renamed'):
+        for shapes in (['R'], ['X', 'G1v'], ['G2vv', 'R'], ['GX1'], ['N'], ['RV', 'R'], ['G1v', 'X', 'R']):
+            for fl in (ALLF, {'success': True}, {'failure': True}, {}):
+                cs.append({'handlers': mk_handlers('e', shapes), 'fires': [{'name': 'e', 'flags': fl}], 'mk': mk})
+        cs.append({'handlers': mk_handlers('e', ['GCn', 'R']), 'fires': [{'name': 'e', 'flags': ALLF}], 'mk': mk, 'refire': 1})
+        cs.append({'handlers': mk_handlers('e', ['GTC', 'R']), 'fires': [{'name': 'e', 'flags': ALLF}], 'mk': mk, 'under_run': True})
     # success_channels override
     cs.append({'handlers': mk_handlers('e', ['R', 'G1v']), 'fires': [{'name': 'e', 'flags': ALLF, 'success_channels': ['other']}]})
     cs.append({'handlers': mk_handlers('e', ['X', 'G1v']), 'fires': [{'name': 'e', 'flags': ALLF, 'success_channels': ['other']}]})
@@ -306,6 +313,8 @@ def gen_case(rng):
             spec['success_channels'] = ['other']
         fires.append(spec)
     case = {'handlers': handlers, 'fires': fires}
+    if rng.random() < 0.3:
+        case['mk'] = rng.choice(['attr', 'renamed'])
     if rng.random() < 0.3:
         case['refire'] = rng.choice([1, 1, 2])
     elif rng.random() < 0.2:
